@@ -42,7 +42,7 @@ CLAIMS = {
 }
 
 # properties whose claim text above is backed by units that verify in the committed tree
-READY = {"C01", "C02", "C03", "C04", "C09", "C14", "C15"}
+READY = {"C01", "C02", "C03", "C04", "C07", "C08", "C09", "C10", "C11", "C12", "C13", "C14", "C15", "C16"}
 
 NA = {
     "C05": "liveness/deadlock-freedom over all interleavings of N+2 threads: spin/park loops have no variant without a fairness assumption, and neither Verus nor Kani has a thread semantics (DESIGN.md section 7)",
